@@ -8,6 +8,7 @@ matrix must be element-wise unchanged after every inversion; the factory's forma
 """
 import copy
 import itertools
+import json
 import os
 
 import numpy as np
@@ -118,7 +119,7 @@ ASSUMPTIONS = [
     "the reference is the repository's own inversion with the preloads argument omitted (the property is a relation between two runs of the code)",
 ]
 EXPLORER_OPTS = {"timeout_ms": 5000, "max_paths": 2000, "max_decisions": 4000}
-BUDGET_S = {"quick": 900, "thorough": 2300}
+BUDGET_S = {"quick": 900, "thorough": 3000}
 
 ADD_TO_DIAG = 0.25          # dyadic, so that the exact-rational run and float64 agree bit for bit
 SLOTS = ("w_tilde", "curvature_matrix", "regularization_matrix", "log_det_regularization_matrix_term", "operated_mapping_matrix")
@@ -764,7 +765,7 @@ HETERO_CORE = ((), ("curvature_matrix",), ("regularization_matrix",), ("operated
 SLOW = {"timeout_ms": 12000, "max_paths": 24}
 
 
-def cases(tier):
+def _cases_base(tier):
     out = []
     subs = _all_subsets()
     chunk = 8
@@ -830,6 +831,67 @@ def cases(tier):
                     for i in range(0, len(subs), 16):
                         out.append(("case_seq", {"geom": geom, "mix": mix, "wt": wt, "subsets": subs[i:i + 16], "k": k}))
             out.append(("case_factory", {"geom": geom, "mix": mix}))
+    return out
+
+
+DEEP_GEOMS = ("sq3", "plus", "sq4", "ring5", "tall", "wide", "big", "tiny", "delta", "col", "row")
+DEEP_MIXES = ("M", "FM", "MF", "MM", "F", "FMM", "OM", "MMF", "MMM")
+DEEP_HETERO = HETERO_MIXES + ("MFG", "GMMF")
+DEEP_STEPS = TABLE_STEPS + TABLE_STEPS_MORE + ((("MM", "d"), ("FMM", "e"), ("N", "e"), ("MM", "e")),)
+
+
+def _cases_deep():
+    """thorough only: the SAME obligations over more of the input space - every geometry (incl. the next sizes up sq4 / ring5, the
+    non-square PSFs, huge / tiny noise units, the degenerate no-blur PSF) gets the full plan that sq3 / plus had, more mixes
+    (incl. three mappers, two of them coincident, and override function lists), longer histories, more symbolic noise pixels"""
+    out = []
+    subs = _all_subsets()
+    ext = [list(c) for r in range(1, 6) for c in itertools.combinations(EXT_SLOTS, r)] + [list(SLOTS) + list(EXT_SLOTS)]
+    for geom in DEEP_GEOMS:
+        small = geom in ("sq3", "plus", "big", "tiny", "delta")
+        k = 4 if small else 3
+        for mix in DEEP_MIXES:
+            for wt in (True, False):
+                for i in range(0, len(subs), 8):
+                    out.append(("case_seq", {"geom": geom, "mix": mix, "wt": wt, "subsets": subs[i:i + 8], "k": k}))
+                if "M" in mix:
+                    for i in range(0, len(ext), 8):
+                        out.append(("case_seq", {"geom": geom, "mix": mix, "wt": wt, "subsets": ext[i:i + 8], "k": k}))
+                    # data + noise symbolic: 3 noise pixels as in quick, and 5 (w-tilde) / ALL (mapping) noise pixels
+                    out.append(("case_seq", {"geom": geom, "mix": mix, "wt": wt, "subsets": NOISE_SUBSETS, "k": 2, "noise_sym": True}, SLOW))
+                    if small:
+                        out.append(("case_seq", {"geom": geom, "mix": mix, "wt": wt, "subsets": NOISE_SUBSETS, "k": 2,
+                                                 "noise_sym": 5 if wt else 99}, SLOW))
+                    for i in range(0, len(subs), 16):
+                        out.append(("case_seq", {"geom": geom, "mix": mix, "wt": wt, "subsets": subs[i:i + 16], "k": 2, "donor_wt": not wt}))
+                if small and mix in ("M", "FM", "MM", "OM"):
+                    out.append(("case_seq", {"geom": geom, "mix": mix, "wt": wt, "subsets": [["curvature_matrix"], list(SLOTS)],
+                                             "k": 3, "check": True}, SLOW))
+            out.append(("case_factory", {"geom": geom, "mix": mix}))
+            if small and mix in ("M", "FM", "MM"):
+                out.append(("case_factory", {"geom": geom, "mix": mix, "check": True}, SLOW))
+        for mix in DEEP_HETERO:
+            for wt in (True, False):
+                for i in range(0, len(ext), 8):
+                    out.append(("case_seq", {"geom": geom, "mix": mix, "wt": wt, "subsets": ext[i:i + 8], "k": 3}))
+                for i in range(0, len(subs), 16):
+                    out.append(("case_seq", {"geom": geom, "mix": mix, "wt": wt, "subsets": subs[i:i + 16], "k": 3}))
+            out.append(("case_factory", {"geom": geom, "mix": mix}))
+        for share in ("preloads", "dataset"):
+            for steps in DEEP_STEPS:
+                out.append(("case_tables", {"geom": geom, "steps": [list(s_) for s_ in steps], "share": share}))
+    return out
+
+
+def cases(tier):
+    out = _cases_base(tier)
+    if tier != "quick":
+        seen = {json.dumps(c[:2], sort_keys=True) for c in out}
+        for c in _cases_deep():
+            key = json.dumps(c[:2], sort_keys=True)
+            if key not in seen:
+                seen.add(key)
+                out.append(c)
     return out
 
 
